@@ -59,6 +59,18 @@ def gen_case(seed, tier):
             elif r < 0.8:
                 faults.append({'f': 'stall', 'task': name, 'op': rng.randrange(nops), 'k': rng.randint(1, 6),
                                'dur': rng.choice((0.001, 0.5, 70.0))})
+    if rng.random() < 0.12 and mfs in (0, 8):
+        # replacement of a file-backed, tagged value next to readers using the (value, tag) variant of get:
+        # the window between the lock-free SELECT and the file open, and the fallback that follows it
+        k = rng.choice(keys)
+        w = [{'op': 'set', 'k': k, 'v': {'big': ['bytes', big_n, 'w-%d' % j]}, 'tag': 'tag-w-%d' % j, 'retry': True} for j in range(rng.randint(2, 4))]
+        r = [{'op': 'get', 'k': k, 'tag': True} for _ in range(rng.randint(2, 4))]
+        progs = {'c0': w, 'c1': r}
+        if rng.random() < 0.5:
+            progs['c2'] = [{'op': 'get', 'k': k, 'tag': True, 'default': 'dflt'} for _ in range(rng.randint(1, 3))]
+        faults = []
+        settings['statistics'] = 0
+        settings['eviction_policy'] = rng.choice(('least-recently-stored', 'none'))
     cfg = {'topology': topo, 'settings': settings, 'sched': sched, 'line_p': line_p,
            'dircollide': rng.random() < 0.5, 'post_stmt_yield': rng.random() < 0.5,
            'yield_clock': rng.random() < 0.7, 'clock': {'mode': rng.choice(('tick', 'frozen'))},
